@@ -1,13 +1,274 @@
-"""C51 -- DirDBM survives a crash at any point: bounded stand-in (contracts/parts/C51_bounded.py)."""
-from contracts._parts import bounded, EXPLORATION_NOTE
+"""C51 -- DirDBM survives a crash at any point.
 
-CONTRACTS = []
+Deductive (ghost filesystem, as C52): DirDBM.__setitem__ is executed symbolically against a live ghost filesystem for an
+arbitrary new value, an arbitrary or absent old value of the key and an arbitrary old value of a second key; every
+mutating filesystem call is recorded.  For every prefix of the recorded calls -- including a write cut at an arbitrary
+length -- the recovery that reopening performs (remove *.new; for *.rpl: drop it if the plain file exists, else rename it
+into place) is applied to the ghost state and the database is read: the key holds exactly its old or exactly its new
+value (old = absent allowed), the other key is untouched, no *.new / *.rpl file is left.  The recovery in
+DirDBM.__init__ itself is executed on all eight leftover shapes of one key (plain / .new / .rpl present or absent, any
+contents) and shown to implement that specification, also when it is itself cut at any call and run again.
+One sampled key name per run (paths are concrete, contents symbolic).
+Bounded (contracts/parts/C51_bounded.py): real filesystem, several keys, histories, nested crashes.
+"""
+import os
+import stat as stat_mod
+
+from pyvc.api import *
+from pyvc import core
+from contracts._parts import bounded
+from twisted.persisted import dirdbm
+from twisted.python.filepath import FilePath
+
+DIR = "/ghost/db"
+KEY, OTHER = b"a", b"b"
+ENC = {KEY: b"YQ==_", OTHER: b"Yg==_"}
+
+
+def P(name):
+    return DIR.encode() + b"/" + name
+
+
+def as_bytes(p):
+    return p.encode() if isinstance(p, str) else bytes(p)
+
+
+class GhostFS:
+    """live ghost filesystem: plain files with (possibly symbolic) contents in one directory; every mutation is logged"""
+
+    def __init__(self, files):
+        self.files = dict(files)      # bytes path -> content
+        self.initial = dict(files)
+        self.log = []                 # ("create", p) | ("write", p, data) | ("remove", p) | ("rename", a, b)
+
+    def apply(self, files, ev, cut=None):
+        kind = ev[0]
+        if kind == "create":
+            files[ev[1]] = b""
+        elif kind == "write":
+            files[ev[1]] = files.get(ev[1], b"") + (ev[2] if cut is None else ev[2][:cut])
+        elif kind == "remove":
+            files.pop(ev[1], None)
+        elif kind == "rename":
+            files[ev[2]] = files.pop(ev[1])
+
+    def do(self, *ev):
+        self.log.append(ev)
+        self.apply(self.files, ev)
+
+
+class GhostFile:
+    def __init__(self, fs, path):
+        self.fs, self.path = fs, path
+
+    def write(self, data):
+        self.fs.do("write", self.path, data)
+        return L(data)
+
+    def flush(self):
+        pass
+
+    def close(self):
+        pass
+
+    def __enter__(self):
+        return self
+
+    def __exit__(self, *a):
+        return False
+
+
+def fs():
+    return ctx().ghost["fs"]
+
+
+def m_stat(I, path, *a, **kw):
+    p = as_bytes(path)
+    if p == DIR.encode():
+        return os.stat_result((stat_mod.S_IFDIR | 0o755, 1, 1, 2, 0, 0, 0, 0, 0, 0))
+    if p in fs().files:
+        return os.stat_result((stat_mod.S_IFREG | 0o644, 2, 1, 1, 0, 0, 0, 0, 0, 0))
+    raise FileNotFoundError(2, "No such file or directory", path)
+
+
+def m_open(I, path, mode="r", *a, **kw):
+    if "w" not in mode:
+        raise Unsupported("ghost open for reading")
+    p = as_bytes(path)
+    fs().do("create", p)
+    return GhostFile(fs(), p)
+
+
+def m_remove(I, path, *a, **kw):
+    p = as_bytes(path)
+    if p not in fs().files:
+        raise FileNotFoundError(2, "No such file or directory", path)
+    fs().do("remove", p)
+
+
+def m_rename(I, src, dst, *a, **kw):
+    s, d = as_bytes(src), as_bytes(dst)
+    if s not in fs().files:
+        raise FileNotFoundError(2, "No such file or directory", src)
+    fs().do("rename", s, d)
+
+
+def m_glob(I, pattern, *a, **kw):
+    pat = as_bytes(pattern)
+    suffix = pat.rsplit(b"*", 1)[1]
+    hits = sorted(p for p in fs().files if p.endswith(suffix) and p.startswith(DIR.encode() + b"/"))
+    return [h.decode() for h in hits] if isinstance(pattern, str) else hits
+
+
+CALLS = {"posix.stat": m_stat, "stat": m_stat, "posix.lstat": m_stat, "lstat": m_stat,
+         "posixpath.islink": lambda I, p: False, "islink": lambda I, p: False,
+         "genericpath.exists": lambda I, p: as_bytes(p) in fs().files, "exists": lambda I, p: as_bytes(p) in fs().files,
+         "io.open": m_open, "open": m_open, "_open": m_open,
+         "posix.remove": m_remove, "posix.unlink": m_remove, "remove": m_remove, "unlink": m_remove,
+         "posix.rename": m_rename, "rename": m_rename,
+         "glob.glob": m_glob, "glob": m_glob,
+         "_stat.S_ISDIR": "native", "S_ISDIR": "native", "_stat.S_ISLNK": "native", "S_ISLNK": "native",
+         "_stat.S_ISREG": "native", "S_ISREG": "native",
+         "sys.getfilesystemencoding": "native", "getfilesystemencoding": "native"}
+
+
+def recover(files):
+    """specification of what reopening the database does"""
+    f = dict(files)
+    for p in [p for p in f if p.endswith(b".new")]:
+        del f[p]
+    for p in sorted(p for p in f if p.endswith(b".rpl")):
+        base = p[:-4]
+        if base in f:
+            del f[p]
+        else:
+            f[base] = f.pop(p)
+    return f
+
+
+def crash_states(g, cut):
+    """ghost state after every prefix of the log (a write cut after `cut` bytes)"""
+    out = []
+    for upto in range(len(g.log) + 1):
+        files = dict(g.initial)
+        for ev in g.log[:upto]:
+            g.apply(files, ev)
+        out.append(dict(files))
+        if upto < len(g.log) and g.log[upto][0] == "write":
+            part = dict(files)
+            g.apply(part, g.log[upto], cut)
+            out.append(part)
+    return out
+
+
+def same(a, b):
+    if a is None or b is None:
+        return a is None and b is None
+    return veq(a, b)
+
+
+class SetItem(Contract):
+    prop = "C51"
+    module = "twisted.persisted.dirdbm"
+    function = "DirDBM.__setitem__"
+    also = ["DirDBM._writeFile", "DirDBM._encode"]
+    differential = False
+    calls = CALLS
+    inputs = dict(new=Bytes(alphabet=b"n", small_len=2), old=Opt(Bytes(alphabet=b"o", small_len=1)), other=Bytes(alphabet=b"x", small_len=1),
+                  cut=Int(lo=0, small=[0, 1]))
+    trusted = ["POSIX: rename replaces atomically, a created file is empty, data of a write reaches the file in order (a crash "
+               "keeps a prefix); no fsync / directory-entry ordering modelled", "one sampled key name per run"]
+
+    def requires(self, i):
+        return i.cut <= L(i.new)
+
+    def setup(self, i):
+        files = {P(ENC[OTHER]): i.other}
+        if i.old is not None:
+            files[P(ENC[KEY])] = i.old
+        db = self.make(dirdbm.DirDBM, dname=DIR, _dnamePath=FilePath(DIR))
+        return dict(self=db, args=[KEY, i.new], ghost=dict(fs=GhostFS(files)))
+
+    def bounded_inputs(self, tier):
+        return iter(())
+
+    raises = ()
+
+    def _crash_safe(S):
+        g, out = S.ghost["fs"], True
+        for st in crash_states(g, S.i.cut):
+            r = recover(st)
+            got = r.get(P(ENC[KEY]))
+            ok_key = bor(same(got, S.i.new), same(got, S.i.old)) if got is not None else (S.i.old is None)
+            stray = [p for p in r if p.endswith((b".new", b".rpl"))]
+            out = band(out, ok_key, same(r.get(P(ENC[OTHER])), S.i.other), len(stray) == 0, len(r) <= 2)
+        return out
+
+    def _done(S):
+        f = S.ghost["fs"].files
+        return band(same(f.get(P(ENC[KEY])), S.i.new), same(f.get(P(ENC[OTHER])), S.i.other), len(f) == 2)
+
+    ensures = dict(every_crash_point_recovers_to_old_or_new=_crash_safe, new_value_stored_nothing_else_changed=_done)
+    canaries = [("new = old.siblingExtension(\".rpl\")", "new = old", "every_crash_point_recovers_to_old_or_new"),
+                ("self._writeFile(new, v)", "old.remove() if old.exists() else None; self._writeFile(new, v)", "every_crash_point_recovers_to_old_or_new")]
+
+
+class Recovery(Contract):
+    """DirDBM.__init__ on every leftover shape of one key implements recover(), also when cut and re-run"""
+    prop = "C51"
+    module = "twisted.persisted.dirdbm"
+    function = "DirDBM.__init__"
+    differential = False
+    calls = CALLS
+    inputs = dict(plain=Opt(Bytes(alphabet=b"p", small_len=1)), new=Opt(Bytes(alphabet=b"n", small_len=1)),
+                  rpl=Opt(Bytes(alphabet=b"r", small_len=1)), other=Bytes(alphabet=b"x", small_len=1))
+    trusted = SetItem.trusted
+
+    def setup(self, i):
+        files = {P(ENC[OTHER]): i.other}
+        for suffix, v in ((b"", i.plain), (b".new", i.new), (b".rpl", i.rpl)):
+            if v is not None:
+                files[P(ENC[KEY] + suffix)] = v
+        db = self.make(dirdbm.DirDBM)
+        return dict(fn=dirdbm.DirDBM.__init__, args=[db, DIR], ghost=dict(fs=GhostFS(files)))
+
+    def bounded_inputs(self, tier):
+        return iter(())
+
+    raises = ()
+
+    def _implements_spec(S):
+        g = S.ghost["fs"]
+        want = recover(g.initial)
+
+        def eq(a, b):
+            return band(len(a) == len(b), *[same(a.get(k), b.get(k)) if k in a else False for k in b])
+        out = eq(g.files, want)
+        for st in crash_states(g, 0):
+            out = band(out, eq(recover(st), want))  # a recovery cut anywhere and run again ends in the same state
+        return out
+
+    ensures = dict(reopening_implements_the_recovery_specification=_implements_spec)
+    canaries = [("if os.path.exists(old):", "if not os.path.exists(old):", "reopening_implements_the_recovery_specification")]
+
+
+CONTRACTS = [SetItem, Recovery]
 BOUNDED = bounded("C51")
 _SCOPE = ('real DirDBM / Shelf on a scratch directory with every mutating filesystem call intercepted: every history of up to 3 (thorough 4) set / delete operations over 2 keys x 3 values, a crash before every call and after every proper prefix of every write, recovery re-crashed at every point until no new disk state appears, seeded multi-crash walks, hostile directory names; oracle: a dict model in which only the interrupted key may hold its old or new value, observed through the public API only')
-NOTES = dict(explanation=_SCOPE, not_covered=["deductive contracts on the anchored functions (not built)"])
+NOTES = dict(explanation="__setitem__ proved crash-safe at every call boundary and inside the write, __init__'s recovery proved to implement its "
+                         "specification and to be restartable (ghost filesystem, arbitrary contents); histories bounded: " + _SCOPE,
+             not_covered=["__delitem__ (a single unlink) and Shelf's pickling: bounded tier only", "fsync / directory ordering of a real kernel",
+                          "key names other than the sampled one (paths are concrete)"])
 MANIFEST = dict(
-    category="exploration",
-    text="Bounded stand-in only, on the real code: " + _SCOPE + ".",
-    note=EXPLORATION_NOTE,
-    technique="bounded exhaustive evaluation of an executable contract on the real code (stand-in; not proved)",
+    category="proof",
+    text="DirDBM.__setitem__ (with _writeFile / _encode) is executed symbolically against a ghost filesystem for arbitrary new, old "
+         "(or absent) and neighbouring values: after every prefix of its filesystem calls, including a write cut at an arbitrary "
+         "length, applying the recovery specification yields the key with exactly its old or its new value, the other key "
+         "untouched and no stray .new / .rpl file; on return the new value is stored.  DirDBM.__init__ is shown, on all "
+         "leftover shapes of a key (plain / .new / .rpl present or absent, arbitrary contents), to implement that recovery "
+         "specification and to reach the same state when it is itself cut at any call and run again.  Several keys, "
+         "histories, deletes and the real filesystem are exercised in the bounded tier only: " + _SCOPE + ".",
+    note="Trusted: pyvc, SMT solvers, the ghost filesystem's POSIX semantics (atomic rename, no fsync modelling), one sampled "
+         "key name.  Everything else: bounded, never counted as proved.",
+    technique="contract-based deductive verification (symbolic execution against a live ghost filesystem; crash-prefix postcondition with a recovery specification) + bounded exhaustive crash histories",
 )
